@@ -257,3 +257,11 @@ func (s *Sched) abortAll() {
 
 // Threads returns the controlled threads.
 func (s *Sched) Threads() []*T { return s.threads }
+
+// Current returns the thread that is running now (nil before the first pick).
+func (s *Sched) Current() *T {
+	if s.cur < 0 || s.cur >= len(s.threads) {
+		return nil
+	}
+	return s.threads[s.cur]
+}
